@@ -18,7 +18,7 @@ class WorldC10(World):
     PROBES = ('fit-full-rank-unique', 'fit-overdetermined', 'fit-rank-deficient', 'stale-offsets-evaluated',
               'two-targets-share-references', 'target-with-absent-descriptor', 'different-T_ref', 'given-offset',
               'custom-descriptor', 'reload-target', 'refit-after-append', 'refit-after-pop', 'setitem-then-fit',
-              'use_references-off')
+              'use_references-off', 'extend-with-one-shot-iterable')
     REAL = ('pmutt.empirical.references.Reference / References (all list methods, fit_HoRT_offset, getters)',
             'pmutt.statmech.StatMech.get_quantity references branch', 'pmutt.io.json')
     SIMULATED = ('1-3 clients editing shared References objects and evaluating targets that share them',)
@@ -105,7 +105,8 @@ class WorldC10(World):
                 return {'c': c, 'op': 'append', 'args': {'rs': rid, 'ref': rng.choice(sorted(self.ref))}}
             if e == 'extend':
                 return {'c': c, 'op': 'extend', 'args': {'rs': rid, 'refs': rng.sample(sorted(self.ref),
-                                                                                      rng.randint(1, min(2, len(self.ref))))}}
+                                                                                      rng.randint(1, min(2, len(self.ref)))),
+                                                         'as': rng.choice(['list', 'tuple', 'generator', 'iter'])}}
             if e == 'pop':
                 return {'c': c, 'op': 'pop', 'args': {'rs': rid, 'i': rng.choice([-1, rng.randrange(len(mem))])}}
             if e == 'remove':
@@ -280,7 +281,17 @@ class WorldC10(World):
             elif name == 'extend':
                 if any(i not in self.ref for i in a['refs']):
                     raise Skip()
-                self.real(rs.extend, [self.ref[i] for i in a['refs']], _what='References.extend')
+                seq = [self.ref[i] for i in a['refs']]
+                how = a.get('as', 'list')     # list.extend takes any iterable; so does References.extend
+                if how == 'tuple':
+                    seq = tuple(seq)
+                elif how == 'generator':
+                    seq = (x for x in seq)
+                    self.ctx.probe('extend-with-one-shot-iterable')
+                elif how == 'iter':
+                    seq = iter(seq)
+                    self.ctx.probe('extend-with-one-shot-iterable')
+                self.real(rs.extend, seq, _what='References.extend(%s)' % how)
                 mem.extend(a['refs'])
             elif name == 'pop':
                 if len(mem) <= 1 or not (-len(mem) <= a['i'] < len(mem)):
